@@ -171,7 +171,7 @@ def run_ssh_fake(case):
             if not case['hello_ok']: raise SessionError('Capability exchange timed out')
     def user_cb(host, fingerprint):
         ev.append(('CallbackAsked',)); return case['cb_verdict']      # the raw value: the library must go by its truthiness
-    kw = dict(host=HOST, port=PORT, sock=object(), username='u', hostkey_verify=bool(case['verify']),
+    kw = dict(host=(None if case.get('host_none') else HOST), port=PORT, sock=object(), username='u', hostkey_verify=bool(case['verify']),
               allow_agent=bool(case['allow_agent']), look_for_keys=bool(case['look_for_keys']),
               device_params={'name': case['profile']})
     if case['password']: kw['password'] = 'pw'
